@@ -102,7 +102,8 @@ def stmts_src(stmts, root, ind):
         elif k == "dist":
             ws = []
             for it, w in s[2]:
-                ws.append("vsc.weight(%s, %d)" % (("(%d, %d)" % tuple(it)) if isinstance(it, list) else "%d" % it, w))
+                ws.append("vsc.weight(%s, %s)" % (("(%d, %d)" % tuple(it)) if isinstance(it, list) else "%d" % it,
+                                                 expr_src(w, root) if isinstance(w, list) else "%d" % w))
             out.append(pad + "vsc.dist(%s, [%s])" % (expr_src(s[1], root), ", ".join(ws)))
         elif k == "foreach":
             out.append(pad + "with vsc.foreach(%s, idx=True, it=True) as (_i, _it):" % expr_src(["f", s[1]], root))
